@@ -46,7 +46,7 @@ def repo_state():
 def sizes(tier):
     if tier == "thorough":
         return 640, 480
-    return 48, 32
+    return 64, 48
 
 
 def p2_run(ctx):
@@ -78,18 +78,23 @@ def p2_run(ctx):
         shards = min(16, os.cpu_count() or 4)
         procs = []
         for i in range(shards):
-            procs.append(subprocess.Popen([exe, "-seed", str(ctx.seed), "-n", str(n), "-crash", str(ncrash), "-shards", str(shards), "-shard", str(i)],
-                                          stdout=subprocess.PIPE, stderr=subprocess.PIPE, env=dict(os.environ, **vlib.GOENV)))
+            # every shard writes to its own file: a pipe would block the shard until the parent gets round to reading it
+            of = open(os.path.join(cdir, "%s.shard%d" % (key, i)), "wb")
+            procs.append((subprocess.Popen([exe, "-seed", str(ctx.seed), "-n", str(n), "-crash", str(ncrash), "-shards", str(shards), "-shard", str(i)],
+                                           stdout=of, stderr=subprocess.PIPE, env=dict(os.environ, **vlib.GOENV)), of))
         outs = []
-        for p in procs:
+        for i, (p, of) in enumerate(procs):
             try:
-                so, se = p.communicate(timeout=3000)
+                _, se = p.communicate(timeout=6000)
             except subprocess.TimeoutExpired:
                 p.kill()
                 raise vlib.CheckError("p2 harness shard timed out")
+            of.close()
             if p.returncode != 0:
                 raise vlib.CheckError("p2 harness shard failed rc=%s\n%s" % (p.returncode, se.decode("utf8", "replace")[-3000:]))
-            outs.append(so)
+            fn = os.path.join(cdir, "%s.shard%d" % (key, i))
+            outs.append(open(fn, "rb").read())
+            os.remove(fn)
         so = b"".join(outs).decode("utf8", "replace")
         open(lines_path, "w").write(so)
         # one model-checker process per shard (histories are independent); statistics are summed
